@@ -870,6 +870,59 @@ def _clause_block(kw, clauses, fid, indent="    "):
     return "\n".join(lines) + "\n"
 
 
+# R25 INLINE: free helper functions introduced by the tree under test (not in the census) whose body is ONE expression.  A call
+# `h(a1, .., an)` whose arguments are plain places (`x`, `&x`, `&mut x`, `*x`, `x.f.g`, literals) is replaced by the body with the
+# parameters substituted -- beta-reduction, exact because such arguments have no effects and may be evaluated any number of times.
+# Set by engine/run.py for one evaluation; {name: (param_names, body_expression_text)}.
+INLINE_HELPERS = {}
+_PLACE = re.compile(r"^\s*(&\s*mut\s+|&\s*|\*\s*)?[A-Za-z_][A-Za-z0-9_]*(\s*\.\s*[A-Za-z_0-9]+)*\s*$|^\s*-?[0-9][0-9A-Za-z_]*\s*$|^\s*(true|false)\s*$")
+
+
+def inline_helpers(text):
+    n = 0
+    for _round in range(4):
+        toks = tokenize(text)
+        hit = None
+        for i, t in enumerate(toks):
+            if t.kind == "ident" and t.text in INLINE_HELPERS and i + 1 < len(toks) and toks[i + 1].text == "(" and (i == 0 or toks[i - 1].text not in (".", "::", "fn")):
+                hit = i
+                break
+        if hit is None:
+            break
+        params, expr = INLINE_HELPERS[toks[hit].text]
+        op = hit + 1
+        cl = match_close(toks, op)
+        # split arguments at depth-0 commas
+        args, depth, start = [], 0, toks[op].end
+        for k in range(op + 1, cl):
+            tx_ = toks[k].text
+            if tx_ in OPEN:
+                depth += 1
+            elif tx_ in CLOSE:
+                depth -= 1
+            elif tx_ == "," and depth == 0:
+                args.append(text[start:toks[k].start]); start = toks[k].end
+        last = text[start:toks[cl].start]
+        if last.strip():
+            args.append(last)
+        if len(args) != len(params) or not all(_PLACE.match(a) for a in args):
+            raise Undecided(f"R25: call of helper `{toks[hit].text}` with arguments that are not plain places")
+        et = tokenize(expr)
+        out, pos = [], 0
+        for t_ in et:
+            if t_.kind == "ident" and t_.text in params:
+                k_ = et.index(t_)
+                if k_ > 0 and et[k_ - 1].text in (".", "::"):
+                    continue
+                out.append(expr[pos:t_.start]); out.append("(" + args[params.index(t_.text)].strip() + ")"); pos = t_.end
+        out.append(expr[pos:])
+        ed = Edit(text)
+        ed.replace(toks[hit].start, toks[cl].end, "(" + "".join(out) + ")")
+        text = ed.apply()
+        n += 1
+    return text, n
+
+
 def annotate_fn(f, override_requires=None, canary=False, drop_body=False):
     """returns (generated_text, meta) for one Fn spec"""
     path = os.path.join(REPO, f.src)
@@ -888,6 +941,10 @@ def annotate_fn(f, override_requires=None, canary=False, drop_body=False):
             # R23 ALPHA: same tokens up to a consistent renaming of locals (and whitespace / comments): verified in the annotated shape
             text = ref
             meta["rules"].append("R23 ALPHA" + ("(" + ", ".join(f"{n}->{o}" for n, o in sorted(ren.items())) + ")" if ren else "(layout only)"))
+    if INLINE_HELPERS and f.mode == "prove":
+        text, n_inl = inline_helpers(text)
+        if n_inl:
+            meta["rules"].append(f"R25 INLINEx{n_inl}(" + ",".join(sorted(INLINE_HELPERS)) + ")")
     text = fix_visibility(text)
     text, ncfg = strip_cfg_feature(text)
     if ncfg:
